@@ -167,7 +167,7 @@ assert(idx + 1 == itv__.seq().len() ==> any_cached(rrs@, recs_g, *name, now)) by
     "PartitionedCache::remove_expired_step": STEP_SPEC,
     "PartitionedCache::remove_expired": {"props": ["C15"],
         "contract": """    requires old(self).wf(),
-    ensures final(self).wf(), // [C15:cache_invariants_kept_by_expiry]
+    ensures final(self).wf(), // [C05,C15:cache_invariants_kept_by_expiry]
         final(self).desired_size == old(self).desired_size,
         r == old(self).current_size - final(self).current_size, // [C15:expiry_reports_true_count]
         clean(*final(self)), // [C15:no_expired_record_left]""",
